@@ -213,7 +213,10 @@ def search(ctx):
             # first-order driver; weak transverse fields (branch weights of the intermediate projections far below 1e-8)
             dict(seed=11, L=2, segments=[0.1, 0.2], solver="TJM", order=1), dict(seed=12, L=2, segments=[0.1, 0.2], solver="TJM", order=1, g=1e-4, J=1.0),
             dict(seed=13, L=3, segments=[0.1, 0.1], solver="TJM", order=2, g=3e-4, J=0.7), dict(seed=14, L=2, segments=[0.05, 0.05, 0.05], solver="TJM", order=1, g=2e-5),
-            dict(seed=15, L=2, segments=[0.1, 0.1], solver="MCWF", dt=0.1, g=1e-4)]
+            dict(seed=15, L=2, segments=[0.1, 0.1], solver="MCWF", dt=0.1, g=1e-4),
+            # the dense back-end on a chain whose Hilbert space (32, 64) exceeds a Krylov basis of 25 vectors, strongly coupled, long segments
+            dict(seed=16, L=6, segments=[4.0], solver="MCWF", dt=0.1, J=1.5, g=1.0, predictions=2),
+            dict(seed=17, L=6, segments=[2.0, 4.0], solver="MCWF", dt=0.1, J=1.5, g=1.0, predictions=2)]
     if not ctx.quick:
         plan += [dict(seed=int(ctx.rng.integers(0, 2**31)), L=int(ctx.rng.integers(2, 4)), segments=[0.1, 0.1] if k % 3 == 0 else [round(int(ctx.rng.integers(1, 7)) * 0.05, 2)] if k % 3 == 1
                       else [float(ctx.rng.uniform(0.05, 0.3))],
